@@ -113,8 +113,10 @@ package manager
 //@   assert before call (*indexReleaser).release#1: own: same_slice(*arg0, existingIndexesReleaser)
 //@   assert before call (*Manager).lock#1: created: same_slice(arg1, createdIndexes)
 //@   ensures pairing: ncalls("(*indexReleaser).release") == 1 && ncalls("(*Manager).lock") == ite(len(createdIndexes) > 0, 1, 0)
-//@   assert before call (*Manager).invalidateConverters#1: changed@C16: arg1 == updatedStreams
+//@   assert before call (*Manager).invalidateConverters#1: changed@C16: forall(k, 0, inf, inset(arg1.mask, k) == (inset(updatedStreams.mask, k) || inset(resetStreams.mask, k)))
 //@   ensures requeue@C16: ncalls("(*Manager).invalidateConverters") == ite(len(createdIndexes) > 0, 1, 0)
+//@   assert before call (*Manager).startTaggingJobIfNeeded#1: during_job@C16: implies(mgr.converterJobRunning && len(createdIndexes) > 0, \
+//@       forall(k, 0, inf, implies(inset(updatedStreams.mask, k) || inset(resetStreams.mask, k), inset(mgr.changedStreamsDuringConverterJob.mask, k))))
 //@   assert before call (*Manager).startTaggingJobIfNeeded#1: next_job: ncalls("(*Manager).getIndexesCopy") == ite(len(mgr.importJobs) >= 1, 1, 0)
 
 //@ func (*Manager).convertStreamJob$4
@@ -124,6 +126,7 @@ package manager
 //@   requires mgr.usedIndexes != nil
 //@   assert before call (*indexReleaser).release#1: own: same_slice(*arg0, releaser)
 //@   ensures pairing: ncalls("(*indexReleaser).release") == 1 && ncalls("(*Manager).lock") == 0
+//@   ensures redo@C16: implies(ncalls("(*Manager).invalidateConverters") == 0, old(iszero(mgr.changedStreamsDuringConverterJob.mask)))
 
 //@ func (*View).Release$1
 //@   prop C13
@@ -256,11 +259,18 @@ package manager
 // DelTag: a tag that others reference is rejected before anything is touched; deleting an unreferenced
 // tag keeps the graph well-formed and removes it from the referencedBy sets of the tags it named.
 //@ log (*Manager).detachConverterFromTag
+// (C16) detaching: what was queued for this converter only because of this tag is taken out of the queue - on
+// every path, also when the converter's output is reset because no other tag uses it. The frame is assumed.
+//@ log (*github.com/spq/pkappa2/internal/tools/bitmask.LongBitmask).Sub
 //@ func (*Manager).detachConverterFromTag
 //@   prop C11
-//@   trusted
+//@   nosafety
+//@   noframe
+//@   requires mgr.updatedTagsToSignal != nil
 //@   modifies mgr.updatedTagsToSignal, every(tag, converters)
 //@   ensures mgr.updatedTagsToSignal != nil
+//@   ensures unqueued@C16: implies(isnil(result), ncalls("(*github.com/spq/pkappa2/internal/tools/bitmask.LongBitmask).Sub") == 2)
+//@   assert before call (*github.com/spq/pkappa2/internal/index/converters.CachedConverter).Reset#1: unqueued_first@C16: ncalls("(*github.com/spq/pkappa2/internal/tools/bitmask.LongBitmask).Sub") == 2
 
 // assumed: the key iterator of a map and its collection into a slice write nothing
 //@ extern maps.Keys(m) seq
@@ -444,3 +454,4 @@ package manager
 //@   nosafety
 //@   noframe
 //@   ensures queued: implies(isnil(result) && len(tag.converters) != old(len(tag.converters)), ncalls("(*github.com/spq/pkappa2/internal/tools/bitmask.LongBitmask).Or") == 1)
+
